@@ -18,7 +18,9 @@ PREFIX = {"u64": "u64", "usize": "usize", "u8": "u8", "bool": "bool", "f64": "f6
           "ParmsID": "pid", "EncryptionParameters": "params", "Plaintext": "plain"}
 LEAN_TY = {"u64": "Nat", "usize": "Nat", "u8": "Nat", "int": "Nat", "bool": "Bool", "f64": "Nat", "Modulus": "Nat", "SchemeType": "Nat",
            "ParmsID": "List Nat", "EncryptionParameters": "Params", "Plaintext": "Plain", "I": "α", "unit": "Unit", "bytes": "Bytes",
-           "Level": "Level", "CtV": "CtV", "Ciphertext": "CtV", "CdParms": "Level", "HeContext": "Ctx"}
+           "Level": "Level", "CtV": "CtV", "Ciphertext": "CtV", "CdParms": "Level", "HeContext": "Ctx", "PublicKey": "CtV", "KSwitchKeys": "KSwitch CtV", "RelinKeys": "KSwitch CtV", "GaloisKeys": "KSwitch CtV"}
+# context-dependent serializers (`x.serialize(context, stream)`): static type -> generated function
+CTX_PREFIX = {"Ciphertext": "ct", "PublicKey": "pk", "KSwitchKeys": "kswitch", "RelinKeys": "relin", "GaloisKeys": "galois"}
 # functions translated elsewhere (Gen/WordFns.lean, partial: `R`): name -> (Lean name, result type)
 EXTERN_P = {"get_significant_bit_count": ("GenW.get_significant_bit_count", "usize")}
 
@@ -42,6 +44,11 @@ ACCESSORS = {
     ("CdParms", "scheme", 0): ("SchemeType", "{0}.scheme"),
     ("CdParms", "coeff_modulus", 0): (("vec", "Modulus"), "{0}.moduli"),
     ("CdParms", "poly_modulus_degree", 0): ("usize", "{0}.n"),
+    ("PublicKey", "as_ciphertext", 0): ("Ciphertext", "{0}"),             # a PublicKey is represented by (the view of) its ciphertext
+    ("KSwitchKeys", "parms_id", 0): ("ParmsID", "{0}.pid"),               # `Codec.KSwitch CtV`
+    ("KSwitchKeys", "keys", 0): (("vec", ("vec", "PublicKey")), "{0}.keys"),
+    ("RelinKeys", "as_kswitch_keys", 0): ("KSwitchKeys", "{0}"),          # newtypes over KSwitchKeys
+    ("GaloisKeys", "as_kswitch_keys", 0): ("KSwitchKeys", "{0}"),
     ("Ciphertext", "parms_id", 0): ("ParmsID", "{0}.pid"),
     ("Ciphertext", "size", 0): ("usize", "{0}.size"),
     ("Ciphertext", "is_ntt_form", 0): ("bool", "{0}.ntt"),
@@ -223,12 +230,12 @@ class Lower:
         if self.mode == "W": b.append("{S E : Type} (st : WStream S E)")
         if self.generic:
             b.insert(0, "{α : Type}")
-            b.append({"W": "(item : α → W S E Nat)", "R": "(item : Rd α)", "T": "(item : α → Nat)", "P": "(item : α → Nat)"}[self.mode])
+            b.append({"W": "(item' : α → W S E Nat)", "R": "(item' : Rd α)", "T": "(item' : α → Nat)", "P": "(item' : α → Nat)"}[self.mode])
         return " ".join(b)
     def ctx_args(self):
         a = []
         if self.mode == "W": a.append("st")
-        if self.generic: a.append("item")
+        if self.generic: a.append("item'")
         return " ".join(a)
 
     # ---- types
@@ -246,6 +253,7 @@ class Lower:
             n = t[1]
             if n == "Self": return self.ntp(self.selfty)
             if n in LEAN_TY or n in ("HeContext", "Ciphertext"): return n
+            if n == "I" and self.generic: return "I"
             if n == "T": return "stream"
         if t[0] == "selfty": return self.ntp(self.selfty)
         self.fail(f"type {t}")
@@ -261,7 +269,7 @@ class Lower:
             return f"vec_{kind} {st}{wrap(inner)}"
         if t == "I":
             if not self.generic: self.fail("generic item outside a generic impl")
-            return "item"
+            return "item'"
         if isinstance(t, tuple) and t[0] == "arr" and t[1] == "u64" and t[2] == self.gen.sizes["ParmsID"] // 8: t = "ParmsID"
         if t == "int": self.fail(f"`{kind}` on an integer literal of unknown type")
         if t not in PREFIX: self.fail(f"`{kind}` on type {t}")
@@ -269,6 +277,17 @@ class Lower:
         if target not in self.gen.done and target != self.name: self.fail(f"`{kind}` of {t} is used before it is generated")
         if kind == "serialized_size" and self.gen.done.get(target, self.mode) not in ("T",): self.fail(f"{target} is not total")
         return f"{target} {st}".strip()
+
+    def cser_fn(self, t, cx):
+        """the generated context-dependent `serialize` for static type t"""
+        if isinstance(t, tuple) and t[0] == "vec": return f"cvec_serialize st {wrap(self.cser_fn(t[1], cx))}"
+        if t == "I":
+            if not self.generic: self.fail("generic item outside a generic impl")
+            return "item'"
+        if t not in CTX_PREFIX: self.fail(f"`serialize(context, stream)` on type {t}")
+        target = f"{CTX_PREFIX[t]}_serialize"
+        if target not in self.gen.done: self.fail(f"{target} is used before it is generated")
+        return f"{target} st {cx}"
 
     # ---- expressions (CPS): k(code, type) -> code of the rest
     def ce(self, e, env, k):
@@ -504,6 +523,10 @@ class Lower:
                         return k(f"wio (st.{'writeAll' if m == 'write_all' else 'write'} {c})", "unit" if m == "write_all" else "usize")
                     return self.ce(args[0], env, kb)
                 return run
+            if m == "serialize" and self.mode == "W" and len(args) == 2 and args[1] == ("path", ["stream"]) and args[0][0] == "path" \
+                    and len(args[0][1]) == 1 and env.get(args[0][1][0], (None, None))[1] == "HeContext":
+                cx = env[args[0][1][0]][0]
+                return lambda k: self.ce(recv, env, lambda c, t: k(f"{self.cser_fn(t, cx)} {c}", "usize"))
             if m == "serialize" and self.mode == "W" and args == [("path", ["stream"])]:
                 return lambda k: self.ce(recv, env, lambda c, t: k(f"{self.ser_fn('serialize', t)} {c}", "usize"))
         if e[0] in ("call", "gcall"):
@@ -727,7 +750,8 @@ class Lower:
             # in DECLARATION order (not by name: renaming a local must not permute the helper's arguments)
             asg = self.assigned(body, set()); nms = self.names(body, set())
             state = [x for x in env if x in asg]
-            used = [x for x in env if x in nms and x not in state and env[x][1] != "stream"]
+            used = [x for x in env if x in nms and x not in state and env[x][1] != "stream"
+                    and not (env[x][1] == "HeContext" and self.ent.get("drop_ctx"))]
             lname = "@LOOP@"
             env2 = dict(env)
             if v != "_": env2[v] = (self.lname(v), elt)
@@ -770,7 +794,10 @@ class Lower:
                 env["self"] = ("self_", self.ntp(self.selfty)); binders.append(f"(self_ : {lty(self.selfty)})"); continue
             t = self.rty(pt)
             if t == "stream": env[pn] = ("st", "stream"); continue
-            if t == "HeContext": env[pn] = ("ctx", "HeContext"); binders.append("(ctx : Ctx)"); continue
+            if t == "HeContext":
+                env[pn] = ("ctx", "HeContext")
+                if not self.ent.get("drop_ctx"): binders.append("(ctx : Ctx)")
+                continue
             env[pn] = (self.lname(pn), t); binders.append(f"({self.lname(pn)} : {lty(t)})")
         if self.ent.get("ctx_first"): binders.sort(key=lambda b: 0 if b.startswith("(ctx") else 1)
         ret = fn["ret"]
@@ -994,6 +1021,11 @@ TABLE = (
        {"fn": "read_u64_limited", "mode": "R", "lean": "read_u64_limited", "where": "fn read_u64_limited"},
        {"fn": "serialize_full", "impl": "Ciphertext", "selfty": "Ciphertext", "mode": "W", "lean": "ct_serialize_full", "where": "impl Ciphertext :: serialize_full", "ctx_first": True},
        {"fn": "serialize", "impl": "SerializableWithHeContext for Ciphertext", "selfty": "Ciphertext", "mode": "W", "lean": "ct_serialize", "where": "impl SerializableWithHeContext for Ciphertext :: serialize", "ctx_first": True},
+       {"fn": "serialize", "impl": "SerializableWithHeContext for PublicKey", "selfty": "PublicKey", "mode": "W", "lean": "pk_serialize", "where": "impl SerializableWithHeContext for PublicKey :: serialize", "ctx_first": True},
+       {"fn": "serialize", "impl": "SerializableWithHeContext for Vec<I>", "selfty": ("vec", "I"), "generic": True, "mode": "W", "lean": "cvec_serialize", "where": "impl SerializableWithHeContext for Vec<I> :: serialize", "drop_ctx": True},
+       {"fn": "serialize", "impl": "SerializableWithHeContext for KSwitchKeys", "selfty": "KSwitchKeys", "mode": "W", "lean": "kswitch_serialize", "where": "impl SerializableWithHeContext for KSwitchKeys :: serialize", "ctx_first": True},
+       {"fn": "serialize", "impl": "SerializableWithHeContext for RelinKeys", "selfty": "RelinKeys", "mode": "W", "lean": "relin_serialize", "where": "impl SerializableWithHeContext for RelinKeys :: serialize", "ctx_first": True},
+       {"fn": "serialize", "impl": "SerializableWithHeContext for GaloisKeys", "selfty": "GaloisKeys", "mode": "W", "lean": "galois_serialize", "where": "impl SerializableWithHeContext for GaloisKeys :: serialize", "ctx_first": True},
        {"fn": "serialized_full_size", "impl": "Ciphertext", "selfty": "Ciphertext", "mode": "P", "lean": "ct_serialized_full_size", "where": "impl Ciphertext :: serialized_full_size", "ctx_first": True},
        {"fn": "serialized_size", "impl": "SerializableWithHeContext for Ciphertext", "selfty": "Ciphertext", "mode": "P", "lean": "ct_serialized_size", "where": "impl SerializableWithHeContext for Ciphertext :: serialized_size", "ctx_first": True},
        {"fn": "serialized_terms_size", "impl": "Ciphertext", "selfty": "Ciphertext", "mode": "P", "lean": "ct_serialized_terms_size", "where": "impl Ciphertext :: serialized_terms_size", "ctx_first": True}]
